@@ -294,7 +294,7 @@ type Explorer struct {
 // NewExplorer reads the driver's environment (VERIF_SHARD, VERIF_BUDGET_S, ...).
 func NewExplorer(tb *testing.T, prop string) *Explorer {
 	e := &Explorer{TB: tb, Prop: prop, NSh: 1, Rep: &Report{Counters: map[string]int{}, Scenarios: map[string]map[string]any{}, Exhaustive: true},
-		outcomes: map[string]struct{}{}, nontrivial: map[string]struct{}{}, allStates: map[[8]byte]struct{}{}, detLeft: 16, seenSig: map[string]bool{}}
+		outcomes: map[string]struct{}{}, nontrivial: map[string]struct{}{}, allStates: map[[8]byte]struct{}{}, detLeft: 48, seenSig: map[string]bool{}}
 	if s := os.Getenv("VERIF_SHARD"); s != "" {
 		fmt.Sscanf(s, "%d/%d", &e.Shard, &e.NSh)
 	}
@@ -715,6 +715,9 @@ func (e *Explorer) replay(scs []*Scenario, path string) {
 	}
 	e.TB.Fatalf("replay: unknown scenario %q", rf.Scenario)
 }
+
+// NumStates returns the number of distinct state keys seen so far.
+func (e *Explorer) NumStates() int { return len(e.allStates) }
 
 // Finish writes the shard report.
 func (e *Explorer) Finish() {
